@@ -117,6 +117,7 @@ type nnsOp struct {
 }
 
 type NNSDriver struct {
+	N     int    // committee size (3 unless set)
 	Mode  string // C10 C11 C12r C12c
 	ops   []nnsOp
 	acc   map[string]util.Uint160
@@ -204,6 +205,14 @@ func NewNNSDriver(mode string) *NNSDriver {
 				nnsOp{kind: "renew", name: "com", years: 1, signer: sg}, nnsOp{kind: "updSOA", name: "com", data: "new@x.y", signer: sg},
 				nnsOp{kind: "add", name: "com", typ: rtTXT, data: "t1", signer: sg})
 		}
+	case "C11even":
+		// committee-only operations on a 4-key committee: the majority is 3, exactly half is not
+		d.names = []string{"aa.com"}
+		for _, sg := range [][]string{s("Cm"), s("Half"), s("U1"), s("Al")} {
+			add(nnsOp{kind: "regTLD", name: "org", signer: sg}, nnsOp{kind: "setPrice", years: 7, signer: sg},
+				nnsOp{kind: "renew", name: "com", years: 1, signer: sg}, nnsOp{kind: "updSOA", name: "com", data: "new@x.y", signer: sg})
+		}
+		add(nnsOp{kind: "register", name: "aa.com", who: "U1", signer: s("U1")})
 	case "C12r":
 		d.pre = []string{"aa.com", "bb.com"}
 		d.names = []string{"aa.com", "bb.com", "x.aa.com", "y.x.aa.com"}
@@ -285,12 +294,23 @@ func NewNNSDriver(mode string) *NNSDriver {
 }
 
 func (d *NNSDriver) Build() *World {
-	w := NewWorld(3) // committee-majority (2 of 3) differs from the Alphabet (3 of 3)
+	n := 3 // committee-majority (2 of 3) differs from the Alphabet (3 of 3)
+	if d.N > 0 {
+		n = d.N
+	}
+	w := NewWorld(n)
 	nh := w.Deploy("nns", CompileDir(Repo, "nns"), []any{[]any{[]any{"com", "ops@x.y"}}}).Hash
 	c := CompileSource("nnsprobe", nnsProbeSrc, &compiler.Options{Name: "nnsprobe", NoEventsCheck: true, NoPermissionsCheck: true, Permissions: WildPermissions()})
 	dp := w.Deploy("nnsprobe", c, nil)
 	d.acc = map[string]util.Uint160{"U1": w.Acct("U1").Hash, "U2": w.Acct("U2").Hash, "D": w.Acct("D").Hash, "S": w.Acct("S").Hash,
 		"P": dp.Hash, "Cm": w.Comm, "Al": w.Alpha}
+	if n%2 == 0 {
+		// exactly half of an even committee is no majority
+		half := MultiSigner(n/2, w.Keys, w.Pubs)
+		d.acc["Half"] = half.ScriptHash()
+		w.Signers[half.ScriptHash()] = half
+		w.FundGAS(half.ScriptHash(), 1000_0000_0000)
+	}
 	if len(d.pre) > 0 {
 		w.FundGAS(d.acc["U1"], 10000_0000_0000)
 	}
